@@ -111,7 +111,17 @@ def replay_history(case):
         out = "ok"
         try:
             if ev["op"] == "add":
-                m.add(ev["v"], ev["a"], imgs[ev["img"]])
+                from . import enums
+                if ev["a"] not in enums.RPM_ARCHES and (k + step) % 2:
+                    # the image itself claims the unknown architecture of the tree it is offered to (put back after the refusal)
+                    own = imgs[ev["img"]].arch
+                    imgs[ev["img"]].arch = ev["a"]
+                    try:
+                        m.add(ev["v"], ev["a"], imgs[ev["img"]])
+                    finally:
+                        imgs[ev["img"]].arch = own
+                else:
+                    m.add(ev["v"], ev["a"], imgs[ev["img"]])
             elif ev["op"] == "setversion":
                 m.header.version = VERSTR[ev["ver"]]
             elif ev["op"] == "edit":
